@@ -4,7 +4,7 @@ Trace == ndJsonDeserialize("trace.ndjson")
 VARIABLE l
 Abs(j) == [nodes |-> ToSet(j.nodes), svcs |-> {[s EXCEPT !.ups = ToSet(@)] : s \in ToSet(j.svcs)}, chks |-> ToSet(j.chks),
            coords |-> ToSet(j.coords), gws |-> ToSet(j.gws), topo |-> ToSet(j.topo), kinds |-> ToSet(j.kinds), usage |-> j.usage,
-           vips |-> ToSet(j.vips), free |-> j.free, tgw |-> ToSet(j.tgw), igw |-> ToSet(j.igw), nkv |-> j.nkv, ces |-> ToSet(j.ces)]
+           vips |-> ToSet(j.vips), free |-> j.free, tgw |-> ToSet(j.tgw), igw |-> ToSet(j.igw), nkv |-> j.nkv, ces |-> ToSet(j.ces), sdest |-> ToSet(j.sdest)]
 Pre(i) == IF "pre" \in DOMAIN Trace[i] THEN Abs(Trace[i].pre) ELSE Abs(Trace[i - 1].post)
 \* a state invariant is charged to the step that breaks it
 B(name, P(_), pre, post, first) == IF P(post) \/ (~first /\ ~P(pre)) THEN {} ELSE {name}
@@ -16,6 +16,7 @@ Verdict(i) ==
   \cup B("KindNamesComplete", KindNamesComplete, pre, post, first)
   \cup B("KindNamesSound", KindNamesSound, pre, post, first)
   \cup B("ConnectEnabledComplete", ConnectEnabledComplete, pre, post, first)
+  \cup B("DestinationNamesComplete", DestinationNamesComplete, pre, post, first)
   \cup B("GatewayRowsJustified", GatewayRowsJustified, pre, post, first)
   \cup B("GatewayExactLinksPresent", GatewayExactLinksPresent, pre, post, first)
   \cup B("WildcardRowsLive", WildcardRowsLive, pre, post, first)
